@@ -11,7 +11,7 @@ CHECKS = {
          "DESIGN.md §3 C07"),
  "C08": ("model_checking",
          "stateless schedule enumeration of the real UI and fan-out code under a cooperative scheduler: depth-first search with replay, preemption bound raised 0,1,2(,3), happens-before fingerprint pruning; vector-clock conflict detection on instrumented field accesses in every explored execution",
-         "11 UI scenarios (open, feed, keys, resize, link selection, media hook, command line, racing loaders, two loaders on one collection; each goroutine started as main does) and 6 pub-level scenarios (post fan-out, activity, two-page harvest, duplicate authors through the coalescing fetcher, NewSplicer, replenish), every schedule with at most 1 preemption in all of them and at most 2 in most (quick, 45 s per scenario, about 130 000 executions) / up to 3 (thorough, 8 min per scenario): the UI lock is held in every private State method and frame, frames never overlap, no deadlock or panic, loaders finish, frames have the terminal's height, every final state equals that of a non-preemptive (serial) schedule, constructed items are identical in all schedules, one request per URL, and no two accesses to a struct field of pub or splicer, one of them a write, are unordered by the execution's happens-before relation.",
+         "11 UI scenarios (open, feed, keys, resize, link selection, media hook, command line, racing loaders, two loaders on one collection; each goroutine started as main does) and 7 pub-level scenarios (post fan-out, activity, two-page harvest, duplicate authors through the coalescing fetcher, replies built by a post's own constructor, NewSplicer, replenish), every schedule with at most 1 preemption in all of them and at most 2 in most (quick, 45 s per scenario, about 130 000 executions) / up to 3 (thorough, 8 min per scenario): the UI lock is held in every private State method and frame, frames never overlap, no deadlock or panic, loaders finish, frames have the terminal's height, every final state equals that of a non-preemptive (serial) schedule, constructed items are identical in all schedules, one request per URL, and no two accesses to a struct field of pub or splicer or to a local variable that a closure assigns, one of them a write, are unordered by the execution's happens-before relation.",
          "Scheduling points at Lock, Wait, go, exit, dial and the output callback (sufficient for data-race-free code); data-race freedom is decided for struct fields of pub and splicer by the conflict detector (accesses rewritten to verifrt.R/Wr by mkoverlay); closure-captured locals, map contents and slice elements are covered indirectly (result determinism) and by a supplement that is sampling, not the deciding step: the same scenario bodies built with -race and run free (3 rounds quick, 40 thorough); a race report is a violation. UI scenarios inline the pub fan-out; the evidence lists the completed bound per scenario and exhaustive=true means every scenario finished bound 1.",
          "DESIGN.md §3 C08, §2.2"),
  "C19": ("exploration",
@@ -56,7 +56,7 @@ CHECKS = {
          "DESIGN.md §3 C03"),
  "C20": ("exploration",
          "bounded-exhaustive enumeration of hook configurations x hostile links x media types x entry points through the real UI with a real exec of a dump program",
-         "Hook = dump program + every argument sequence of length <=2 (quick, 94 hooks) / <=3 (thorough, 823) over 9 tokens (placeholders, embedded and repeated placeholders, wrong case, --, empty) plus hooks whose program name is a placeholder; 22 links (four exactly a placeholder, one with userinfo, spaces, quotes, ;, $(), backticks, leading dashes, text that looks like a placeholder, 4 kB, the path of an executable) x 7 media types (three made of placeholder-like tokens, one unknown) x 7 entry points (o, number+Enter for body link, named and unnamed attachment, p, b): exactly one process per key, argv equals the configured argv with exact-match substitution at indices >= 1, stdin carries the link iff no %url argument, the program name is never substituted, the UI returns to normal mode. 12 hooks with white space around or instead of arguments are loaded from a real config.toml by servitor's own start-up code in a child process and must arrive as written.",
+         "Hook = dump program + every argument sequence of length <=2 (quick, 94 hooks) / <=3 (thorough, 823) over 9 tokens (placeholders, embedded and repeated placeholders, wrong case, --, empty) plus hooks whose program name is a placeholder; 22 links (four exactly a placeholder, one with userinfo, spaces, quotes, ;, $(), backticks, leading dashes, text that looks like a placeholder, 4 kB, the path of an executable) x 8 media types (three made of placeholder-like tokens, one unknown, one in capitals) x 7 entry points (o, number+Enter for body link, named and unnamed attachment, p, b): exactly one process per key, argv equals the configured argv with exact-match substitution at indices >= 1, stdin carries the link iff no %url argument, the program name is never substituted, the UI returns to normal mode. 12 hooks with white space around or instead of arguments are loaded from a real config.toml by servitor's own start-up code in a child process and must arrive as written.",
          "Trusted: /verif/bin/vdump (records argv/stdin); the expected link and media type come from the generated world (which link was put in which slot with which declared type), the item's own selector is only cross-checked against it; every page's opens are pressed in sequence and in reverse under one configuration object; UI in pass-through mode over the in-memory peer.",
          "DESIGN.md §3 C20"),
  "C11": ("model_checking",
